@@ -635,6 +635,20 @@ fn flag3() -> impl Parser<Flag3> {
     construct!([a, b, c])
 }
 
+fn flag3c() -> impl Parser<Flag3> {
+    let a = pure(Flag3::A).to_options().command("go").adjacent();
+    let b = short('b').long("beta").req_flag(Flag3::B);
+    let c = short('c').long("gamma").req_flag(Flag3::C);
+    construct!([a, b, c])
+}
+
+/// repeated choice between an adjacent command (a bare word) and two flags
+pub fn a5() -> OptionParser<(bool, Vec<Flag3>)> {
+    let s = short('s').long("sw").switch();
+    let alt = flag3c().many();
+    construct!(s, alt).to_options()
+}
+
 /// repeated choice between three flags
 pub fn a4() -> OptionParser<(Vec<Flag3>, bool)> {
     let alt = flag3().many();
